@@ -32,7 +32,7 @@ theorem isolated (T : Tables) (w : World) (op : Op) (hb : Bounded w) (hs : Separ
     cases op with
     | define d => exact (extends_define T w d).get (hb o x hxo)
     | inst n c cfg => exact (extends_instantiate T w n c cfg).get (hb o x hxo)
-    | setprop i p k v => exact frame_step T w _ x (hb o x hxo) (fun hc => hs i o ho x hc hxo)
+    | setprop i p pa k v => exact frame_step T w _ x (hb o x hxo) (fun hc => hs i o ho x hc hxo)
     | addEnum i p m => exact frame_step T w _ x (hb o x hxo) (fun hc => hs i o ho x hc hxo)
   refine ‚ü®hdesc, ?_‚ü©
   intro V O val v
@@ -47,7 +47,7 @@ theorem separated_preserved (T : Tables) (w : World) (op : Op) (hadm : Admissibl
   cases op with
   | define d => exact preserve_define T w d hadm hb hs
   | inst n c cfg => exact preserve_instantiate T w n c cfg hadm hb hs
-  | setprop i p k v => exact preserve_setprop T w i p k v hb hs
+  | setprop i p pa k v => exact preserve_setprop T w i p pa k v hb hs
   | addEnum i p m => exact preserve_addEnum T w i p m hb hs
 
 /-- a run all of whose intermediate worlds satisfy the invariants -/
@@ -155,7 +155,7 @@ def dC : ClassDecl := ‚ü®"C", ["C", "A"], true, [("p", .value "1" false none)]‚ü
 /-- a base class with a parameter, a subclass narrowing it, two instances of the subclass with different
 configuration, a mutation of one of them, and a late sibling class -/
 def exOps : List Op :=
-  [.define dA, .define dB, .inst "i1" "B" [("p", [("max", "3")])], .inst "i2" "B" [], .setprop "i1" "p" "max" "2", .define dC]
+  [.define dA, .define dB, .inst "i1" "B" [("p", [("max", "3")])], .inst "i2" "B" [], .setprop "i1" "p" [] "max" "2", .define dC]
 
 /-- the example program is admissible from the empty world (hypothesis of `invRun_of_admissible`,
 `isolated_reachable`, `later_instances_fresh`) ‚Ä¶ -/
